@@ -10,7 +10,14 @@
    Values are opaque tokens.  A variadic parameter is one value inside the body: the slice
    Go packs at the call site (nil when no element is passed), or the slice spread with
    [xs...].  User functions are Gallina functions from the received argument tuple to a
-   result tuple or a panic; invocations are explicit events.  Things Go's type checker
+   SCRIPT: while running, a user function may operate on the mock itself (read <M'>Calls(),
+   call a method - the same one included -, call a reset method), continue depending on the
+   outcome, and finally return a result tuple or panic.  The mock has no notion of "a call in
+   progress": nested operations act on the state the outer call left behind, which already
+   contains the outer call's record (appended before forwarding) - the real mock must not
+   hold lock<M> while <M>Func runs for this to be true.  Nested calls may recurse; [callf]
+   has explicit fuel and [OOutOfFuel] (unbounded recursion overflows the stack in Go).
+   Invocations, record appends, clears and nested outcomes are explicit events.  Things Go's type checker
    rejects (unknown method, wrong arity) are explicit [ONoMethod]/[OIllTyped] outcomes.
    skip-ensure only adds/removes a [var _ I = &Mock{}] line; it is a field of [opts] so that
    the harness exercises all eight combinations, and [step] does not look at it.
@@ -21,7 +28,6 @@ Inductive value := VTok (n : nat) | VNilSlice | VSlice (l : list nat).
 Definition vzero : value := VTok 0.          (* the zero value of every result type *)
 
 Inductive ures := URet (rs : list value) | UPanic.
-Definition ufunc := list value -> ures.
 
 (* resolved parameter names (template.Param.Name, after collision resolution) *)
 Record msig := { mname : str; mparams : list str; mvariadic : bool; mnres : nat }.
@@ -73,8 +79,18 @@ Definition pack (s : msig) (a : cargs) : option (list value) :=
        | _ => None
        end.
 
-(* ---- records ---- *)
+(* ---- outcomes, nested operations, user functions ---- *)
 Definition record := list (str * value).      (* fields in declaration order *)
+Inductive out :=
+| OUnit | ONoMethod | OIllTyped | ORet (rs : list value) | OPanicNil (msg : str) | OPanicUser | ORecords (l : list record)
+| OOutOfFuel.
+Inductive nop := NCalls (m : str) | NCall (m : str) (a : cargs) | NResetM (m : str) | NResetAll.
+Inductive script := SRet (r : ures) | SDo (o : nop) (k : out -> script).
+Definition ufunc := list value -> script.
+(* a function that does not touch the mock *)
+Definition plain (r : ures) : ufunc := fun _ => SRet r.
+
+(* ---- records ---- *)
 (* callInfo := struct{ <Exported p> T ... }{ <Exported p>: p, ... }, fields ranged over .Params *)
 Definition mkrec (s : msig) (vals : list value) : record := combine (map exported (mparams s)) vals.
 
@@ -88,9 +104,10 @@ Definition log_of (st : state) (m : str) := snd (st m).
 
 Inductive op :=
 | Call (m : str) (a : cargs) | Calls (m : str) | ResetM (m : str) | ResetAll | SetFunc (m : str) (f : option ufunc).
-Inductive out :=
-| OUnit | ONoMethod | OIllTyped | ORet (rs : list value) | OPanicNil (msg : str) | OPanicUser | ORecords (l : list record).
-Inductive event := EInvoke (m : str) (args : list value).
+(* ERecord/EClear: what happened to the logs; EInvoke: a user function started with these values;
+   ENested: a nested operation of a running user function completed with this outcome *)
+Inductive event :=
+| ERecord (m : str) (vals : list value) | EClear (m : str) | EInvoke (m : str) (args : list value) | ENested (o : nop) (x : out).
 
 (* panic("<StructName>.<M>Func: method is nil but <InterfaceName>.<M> was just called") *)
 Definition nil_msg (d : mock) (m : str) : str :=
@@ -98,9 +115,53 @@ Definition nil_msg (d : mock) (m : str) : str :=
 
 Definition clear (st : state) (m : str) : state := upd st m (func_of st m, []).
 
-Definition step (d : mock) (st : state) (o : op) : state * out * list event :=
+Definition result := (state * out * list event)%type.
+
+Definition do_calls (d : mock) (st : state) (m : str) : result :=
+  match find_method (methods d) m with
+  | None => (st, ONoMethod, [])
+  | Some _ => (st, ORecords (log_of st m), [])
+  end.
+Definition do_reset (d : mock) (st : state) (m : str) : result :=
+  if with_resets (mopts d) then
+    match find_method (methods d) m with
+    | None => (st, ONoMethod, [])
+    | Some _ => (clear st m, OUnit, [EClear m])
+    end
+  else (st, ONoMethod, []).
+Definition do_reset_all (d : mock) (st : state) : result :=
+  if with_resets (mopts d)
+  then (fold_left (fun s sg => clear s (mname sg)) (methods d) st, OUnit, map (fun sg => EClear (mname sg)) (methods d))   (* range .Methods *)
+  else (st, ONoMethod, []).
+
+(* a nested operation, given how to perform a (nested) call *)
+Definition nstep (call : state -> str -> cargs -> result) (d : mock) (st : state) (o : nop) : result :=
   match o with
-  | Call m a =>
+  | NCalls m => do_calls d st m
+  | NCall m a => call st m a
+  | NResetM m => do_reset d st m
+  | NResetAll => do_reset_all d st
+  end.
+
+(* the body of a running user function: its nested operations act on the mock one after the
+   other; [evs] accumulates the events.  Fuel exhaustion of a nested call is not silent. *)
+Fixpoint run_script (ns : state -> nop -> result) (sc : script) (st : state) (evs : list event) : result :=
+  match sc with
+  | SRet (URet rs) => (st, ORet rs, evs)
+  | SRet UPanic => (st, OPanicUser, evs)
+  | SDo o k =>
+    let '(st1, x, ev1) := ns st o in
+    match x with
+    | OOutOfFuel => (st1, OOutOfFuel, evs ++ ev1)
+    | _ => run_script ns (k x) st1 (evs ++ ev1 ++ [ENested o x])
+    end
+  end.
+
+(* the generated method <M> *)
+Fixpoint callf (fuel : nat) (d : mock) (st : state) (m : str) (a : cargs) {struct fuel} : result :=
+  match fuel with
+  | 0 => (st, OOutOfFuel, [])
+  | S f =>
     match find_method (methods d) m with
     | None => (st, ONoMethod, [])
     | Some s =>
@@ -109,34 +170,23 @@ Definition step (d : mock) (st : state) (o : op) : state * out * list event :=
       | Some vals =>
         match func_of st m, stub_impl (mopts d) with
         | None, false => (st, OPanicNil (nil_msg d m), [])              (* before anything is recorded *)
-        | f, _ =>
-          let st' := upd st m (f, log_of st m ++ [mkrec s vals]) in     (* recorded before forwarding *)
-          match f with
-          | None => (st', ORet (repeat vzero (mnres s)), [])
-          | Some g => match g vals with
-                      | URet rs => (st', ORet rs, [EInvoke m vals])
-                      | UPanic => (st', OPanicUser, [EInvoke m vals])
-                      end
+        | fo, _ =>
+          let st' := upd st m (fo, log_of st m ++ [mkrec s vals]) in    (* recorded before forwarding *)
+          match fo with
+          | None => (st', ORet (repeat vzero (mnres s)), [ERecord m vals])
+          | Some g => run_script (nstep (callf f d) d) (g vals) st' [ERecord m vals; EInvoke m vals]
           end
         end
       end
     end
-  | Calls m =>
-    match find_method (methods d) m with
-    | None => (st, ONoMethod, [])
-    | Some _ => (st, ORecords (log_of st m), [])
-    end
-  | ResetM m =>
-    if with_resets (mopts d) then
-      match find_method (methods d) m with
-      | None => (st, ONoMethod, [])
-      | Some _ => (clear st m, OUnit, [])
-      end
-    else (st, ONoMethod, [])
-  | ResetAll =>
-    if with_resets (mopts d)
-    then (fold_left (fun s sg => clear s (mname sg)) (methods d) st, OUnit, [])     (* range .Methods *)
-    else (st, ONoMethod, [])
+  end.
+
+Definition step (fuel : nat) (d : mock) (st : state) (o : op) : result :=
+  match o with
+  | Call m a => callf fuel d st m a
+  | Calls m => do_calls d st m
+  | ResetM m => do_reset d st m
+  | ResetAll => do_reset_all d st
   | SetFunc m f =>
     match find_method (methods d) m with
     | None => (st, ONoMethod, [])
@@ -144,41 +194,43 @@ Definition step (d : mock) (st : state) (o : op) : state * out * list event :=
     end
   end.
 
-Fixpoint trace (d : mock) (st : state) (ops : list op) : list (op * out * list event) :=
+Fixpoint trace (fuel : nat) (d : mock) (st : state) (ops : list op) : list (op * out * list event) :=
   match ops with
   | [] => []
-  | o :: t => let '(st', x, ev) := step d st o in (o, x, ev) :: trace d st' t
+  | o :: t => let '(st', x, ev) := step fuel d st o in (o, x, ev) :: trace fuel d st' t
   end.
-Fixpoint final (d : mock) (st : state) (ops : list op) : state :=
+Fixpoint final (fuel : nat) (d : mock) (st : state) (ops : list op) : state :=
   match ops with
   | [] => st
-  | o :: t => final d (fst (fst (step d st o))) t
+  | o :: t => final fuel d (fst (fst (step fuel d st o))) t
   end.
+Definition all_events (tr : list (op * out * list event)) : list event := flat_map snd tr.
 
 (* ---- the specification side: a list of argument tuples per method ---- *)
-(* a trace entry that put a tuple into m's list *)
-Definition recorded (d : mock) (m : str) (e : op * out * list event) : option (list value) :=
+Definition rec_of (d : mock) (m : str) (vals : list value) : record :=
+  match find_method (methods d) m with Some s => mkrec s vals | None => [] end.
+(* what one event does to the records of method m *)
+Definition eff (d : mock) (m : str) (acc : list record) (e : event) : list record :=
   match e with
-  | (Call m' a, (ORet _ | OPanicUser), _) =>
-    if seqb m' m then match find_method (methods d) m with Some s => pack s a | None => None end else None
-  | _ => None
+  | ERecord m' vals => if seqb m' m then acc ++ [rec_of d m vals] else acc
+  | EClear m' => if seqb m' m then [] else acc
+  | _ => acc
   end.
+(* the argument tuples recorded for m by a list of events *)
 Fixpoint filter_map {A B} (f : A -> option B) (l : list A) : list B :=
   match l with
   | [] => []
   | x :: t => match f x with Some y => y :: filter_map f t | None => filter_map f t end
   end.
-Definition tuples (d : mock) (m : str) (tr : list (op * out * list event)) : list (list value) :=
-  filter_map (recorded d m) tr.
+Definition tuples (m : str) (evs : list event) : list (list value) :=
+  filter_map (fun e => match e with ERecord m' vals => if seqb m' m then Some vals else None | _ => None end) evs.
+Definition clears (m : str) (e : event) : bool := match e with EClear m' => seqb m' m | _ => false end.
+Definition is_invoke (e : event) : bool := match e with EInvoke _ _ => true | _ => false end.
 
-(* does this operation reset m's list? *)
-Definition resets (d : mock) (m : str) (o : op) : bool :=
-  with_resets (mopts d) &&
-  match o with
-  | ResetM m' => seqb m' m && match find_method (methods d) m with Some _ => true | None => false end
-  | ResetAll => smem m (map mname (methods d))
-  | _ => false
-  end.
+(* scripts that never call a method of the mock (they may read Calls() and reset) *)
+Inductive no_ncall : script -> Prop :=
+| nn_ret r : no_ncall (SRet r)
+| nn_do o k : (forall m a, o <> NCall m a) -> (forall x, no_ncall (k x)) -> no_ncall (SDo o k).
 
 (* the function most recently stored in <M>Func *)
 Fixpoint last_func (d : mock) (m : str) (cur : option ufunc) (ops : list op) : option ufunc :=
